@@ -289,7 +289,7 @@ theorem foldl_insert_sorted (kvs acc : List (List Char × JV))
 
 theorem digitC_head : ∀ d, d < 10 → isWS (digitC d) = false ∧ (digitC d == ']') = false := by decide
 
-theorem encode_head (v : JV) : ∃ c tl, encode v = c :: tl ∧ isWS c = false ∧ (c == ']') = false := by
+theorem encode_head (jq : Bool) (v : JV) : ∃ c tl, encode jq v = c :: tl ∧ isWS c = false ∧ (c == ']') = false := by
   cases v with
   | null => exact ⟨'n', _, by simp [encode]; rfl, by decide, by decide⟩
   | bool b => cases b
@@ -317,12 +317,12 @@ theorem encodeInt_head (i : Int) : ∃ c tl, encodeInt i = c :: tl ∧ isWS c = 
     simp [(digitC_facts d hd10).1]
   | negSucc n => exact ⟨'-', _, by simp [encodeInt]; rfl, by decide, by decide⟩
 
-def P1 (v : JV) : Prop := Canon v → ∀ fuel rest, jsize v ≤ fuel → NumSafe rest →
-  parseValue fuel (encode v ++ rest) = .ok v rest
-def P2 (l : List JV) : Prop := l ≠ [] → CanonL l → ∀ fuel rest acc, jsizeL l ≤ fuel →
-  parseElems fuel (encodeElems l ++ ']' :: rest) acc = .ok (.arr (acc.reverse ++ l)) rest
-def P3 (kvs : List (List Char × JV)) : Prop := kvs ≠ [] → CanonM kvs → ∀ fuel rest acc, jsizeM kvs ≤ fuel →
-  parseMembers fuel (encodeMembers kvs ++ '}' :: rest) acc
+def P1 (jq : Bool) (v : JV) : Prop := Canon v → ∀ fuel rest, jsize v ≤ fuel → NumSafe rest →
+  parseValue jq fuel (encode jq v ++ rest) = .ok v rest
+def P2 (jq : Bool) (l : List JV) : Prop := l ≠ [] → CanonL l → ∀ fuel rest acc, jsizeL l ≤ fuel →
+  parseElems jq fuel (encodeElems jq l ++ ']' :: rest) acc = .ok (.arr (acc.reverse ++ l)) rest
+def P3 (jq : Bool) (kvs : List (List Char × JV)) : Prop := kvs ≠ [] → CanonM kvs → ∀ fuel rest acc, jsizeM kvs ≤ fuel →
+  parseMembers jq fuel (encodeMembers jq kvs ++ '}' :: rest) acc
     = .ok (.obj (kvs.foldl (fun a kv => insertKV kv.1 kv.2 a) acc)) rest
 
 theorem numSafe_comma (tl : List Char) : NumSafe (',' :: tl) := by
@@ -333,17 +333,17 @@ theorem numSafe_rbrace (tl : List Char) : NumSafe ('}' :: tl) := by
   intro c t h; cases h; exact ⟨by decide, by decide⟩
 theorem numSafe_nil : NumSafe [] := by intro c t h; cases h
 
-theorem p1_leaf_null : P1 .null := by
+theorem p1_leaf_null (jq : Bool) : P1 jq .null := by
   intro _ fuel rest hf _
   obtain ⟨f, rfl⟩ : ∃ f, fuel = f + 1 := ⟨fuel - 1, by simp [jsize] at hf; omega⟩
   simp [encode, parseValue, skipWS, isWS, isDigit]
 
-theorem p1_leaf_bool (b : Bool) : P1 (.bool b) := by
+theorem p1_leaf_bool (jq : Bool) (b : Bool) : P1 jq (.bool b) := by
   intro _ fuel rest hf _
   obtain ⟨f, rfl⟩ : ∃ f, fuel = f + 1 := ⟨fuel - 1, by simp [jsize] at hf; omega⟩
   cases b <;> simp [encode, parseValue, skipWS, isWS, isDigit]
 
-theorem p1_leaf_num (i : Int) : P1 (.num i) := by
+theorem p1_leaf_num (jq : Bool) (i : Int) : P1 jq (.num i) := by
   intro _ fuel rest hf hs
   obtain ⟨f, rfl⟩ : ∃ f, fuel = f + 1 := ⟨fuel - 1, by simp [jsize] at hf; omega⟩
   obtain ⟨c, tl, he, hws, hnum⟩ := encodeInt_head i
@@ -353,7 +353,7 @@ theorem p1_leaf_num (i : Int) : P1 (.num i) := by
   simp only [List.cons_append] at hp ⊢
   simp only [parseValue, skipWS_cons c _ hws, hnum, if_true, hp]
 
-theorem p1_leaf_str (s : List Char) : P1 (.str s) := by
+theorem p1_leaf_str (jq : Bool) (s : List Char) : P1 jq (.str s) := by
   intro _ fuel rest hf _
   obtain ⟨f, rfl⟩ : ∃ f, fuel = f + 1 := ⟨fuel - 1, by simp [jsize] at hf; omega⟩
   have hl := string_literal s rest
@@ -361,22 +361,22 @@ theorem p1_leaf_str (s : List Char) : P1 (.str s) := by
   simp only [parseValue, skipWS_cons '"' _ (by decide), show ('"' == '-' || isDigit '"') = false by decide,
     Bool.false_eq_true, if_false, show ('"' == '"') = true by decide, if_true, hl]
 
-theorem encodeElems_cons (v : JV) (r : List JV) (tail : List Char) :
-    encodeElems (v :: r) ++ ']' :: tail
-      = encode v ++ (if r = [] then ']' :: tail else ',' :: (encodeElems r ++ ']' :: tail)) := by
+theorem encodeElems_cons (jq : Bool) (v : JV) (r : List JV) (tail : List Char) :
+    encodeElems jq (v :: r) ++ ']' :: tail
+      = encode jq v ++ (if r = [] then ']' :: tail else ',' :: (encodeElems jq r ++ ']' :: tail)) := by
   cases r with
   | nil => simp [encodeElems]
   | cons w r' => simp [encodeElems]
 
-theorem encodeMembers_cons (k : List Char) (v : JV) (r : List (List Char × JV)) (tail : List Char) :
-    encodeMembers ((k, v) :: r) ++ '}' :: tail
-      = encodeString k ++ ':' :: (encode v ++ (if r = [] then '}' :: tail else ',' :: (encodeMembers r ++ '}' :: tail))) := by
+theorem encodeMembers_cons (jq : Bool) (k : List Char) (v : JV) (r : List (List Char × JV)) (tail : List Char) :
+    encodeMembers jq ((k, v) :: r) ++ '}' :: tail
+      = keyText jq k ++ ':' :: (encode jq v ++ (if r = [] then '}' :: tail else ',' :: (encodeMembers jq r ++ '}' :: tail))) := by
   cases r with
   | nil => simp [encodeMembers]
   | cons w r' => obtain ⟨k', v'⟩ := w; simp [encodeMembers]
 
-theorem p2_step (n : Nat) (ih1 : ∀ v, jsize v ≤ n → P1 v) (ih2 : ∀ l, jsizeL l ≤ n → P2 l)
-    (l : List JV) (hl : jsizeL l ≤ n + 1) : P2 l := by
+theorem p2_step (jq : Bool) (n : Nat) (ih1 : ∀ v, jsize v ≤ n → P1 jq v) (ih2 : ∀ l, jsizeL l ≤ n → P2 jq l)
+    (l : List JV) (hl : jsizeL l ≤ n + 1) : P2 jq l := by
   intro hne hc fuel rest acc hf
   cases l with
   | nil => exact absurd rfl hne
@@ -392,13 +392,68 @@ theorem p2_step (n : Nat) (ih1 : ∀ v, jsize v ≤ n → P1 v) (ih2 : ∀ l, js
       simp only [parseElems, hv, skipWS_cons ']' _ (by decide)]
       simp
     · simp only [hr, if_false]
-      have hv := ih1 v (by omega) hcv f (',' :: (encodeElems r ++ ']' :: rest)) (by omega) (numSafe_comma _)
+      have hv := ih1 v (by omega) hcv f (',' :: (encodeElems jq r ++ ']' :: rest)) (by omega) (numSafe_comma _)
       have hrr := ih2 r (by omega) hr hcr f rest (v :: acc) (by omega)
       simp only [parseElems, hv, skipWS_cons ',' _ (by decide), hrr]
       simp
 
-theorem p3_step (n : Nat) (ih1 : ∀ v, jsize v ≤ n → P1 v) (ih3 : ∀ kvs, jsizeM kvs ≤ n → P3 kvs)
-    (kvs : List (List Char × JV)) (hl : jsizeM kvs ≤ n + 1) : P3 kvs := by
+/-! ### object keys: a string literal, or (jq) a bare identifier -/
+
+theorem identStart_facts (c : Char) (h : isIdentStart c = true) :
+    isWS c = false ∧ (c == '"') = false ∧ (c == '}') = false ∧ isIdentChar c = true := by
+  have hc : c.toNat < 128 := by
+    simp only [isIdentStart, Bool.or_eq_true, Bool.and_eq_true, decide_eq_true_eq, beq_iff_eq, Char.le_def] at h
+    rcases h with (⟨_, h2⟩ | ⟨_, h2⟩) | h2
+    · have : c.val.toNat ≤ 'z'.val.toNat := by simpa [UInt32.le_iff_toNat_le] using h2
+      exact Nat.lt_of_le_of_lt this (by decide)
+    · have : c.val.toNat ≤ 'Z'.val.toNat := by simpa [UInt32.le_iff_toNat_le] using h2
+      exact Nat.lt_of_le_of_lt this (by decide)
+    · subst h2; decide
+  have key : ∀ n, n < 128 → isIdentStart (Char.ofNat n) = true →
+      isWS (Char.ofNat n) = false ∧ (Char.ofNat n == '"') = false ∧ (Char.ofNat n == '}') = false
+        ∧ isIdentChar (Char.ofNat n) = true := by decide
+  have := key c.toNat hc (by rw [Char.ofNat_toNat]; exact h)
+  rwa [Char.ofNat_toNat] at this
+
+theorem takeIdent_all (k rest : List Char) (hk : k.all isIdentChar = true)
+    (hrest : ∀ c tl, rest = c :: tl → isIdentChar c = false) : takeIdent (k ++ rest) = (k, rest) := by
+  induction k with
+  | nil =>
+    cases rest with
+    | nil => rfl
+    | cons c tl => simp [takeIdent, hrest c tl rfl]
+  | cons c cs ih =>
+    simp only [List.all_cons, Bool.and_eq_true] at hk
+    simp only [List.cons_append, takeIdent, hk.1, if_true, ih hk.2]
+
+/-- the key of a member, followed by `:`, is read back -/
+theorem key_roundtrip (jq : Bool) (k tail : List Char) :
+    ∃ c r, keyText jq k ++ ':' :: tail = c :: r ∧ isWS c = false ∧ (c == '}') = false ∧
+      (if c == '"' then parseStringBody (r.length + 1) r []
+       else if jq && isIdentStart c then .ok (takeIdent (c :: r)).1 (takeIdent (c :: r)).2
+       else .err) = .ok k (':' :: tail) := by
+  unfold keyText
+  by_cases hi : (jq && isIdent k) = true
+  · simp only [hi, if_true]
+    simp only [Bool.and_eq_true] at hi
+    obtain ⟨hjq, hid⟩ := hi
+    cases k with
+    | nil => simp [isIdent] at hid
+    | cons c cs =>
+      simp only [isIdent, Bool.and_eq_true] at hid
+      obtain ⟨hws, hq, hb, hic⟩ := identStart_facts c hid.1
+      refine ⟨c, cs ++ ':' :: tail, rfl, hws, hb, ?_⟩
+      have ht := takeIdent_all (c :: cs) (':' :: tail) (by simp [hic, hid.2])
+        (by intro x t e; cases e; decide)
+      simp only [List.cons_append] at ht
+      simp only [hq, Bool.false_eq_true, if_false, hjq, hid.1, Bool.and_self, if_true, ht]
+  · simp only [hi, Bool.false_eq_true, if_false, encodeString, List.cons_append, List.append_assoc, List.nil_append]
+    refine ⟨'"', _, rfl, by decide, by decide, ?_⟩
+    simp only [show ('"' == '"') = true by decide, if_true]
+    exact string_literal k (':' :: tail)
+
+theorem p3_step (jq : Bool) (n : Nat) (ih1 : ∀ v, jsize v ≤ n → P1 jq v) (ih3 : ∀ kvs, jsizeM kvs ≤ n → P3 jq kvs)
+    (kvs : List (List Char × JV)) (hl : jsizeM kvs ≤ n + 1) : P3 jq kvs := by
   intro hne hc fuel rest acc hf
   cases kvs with
   | nil => exact absurd rfl hne
@@ -408,42 +463,44 @@ theorem p3_step (n : Nat) (ih1 : ∀ v, jsize v ≤ n → P1 v) (ih3 : ∀ kvs, 
     obtain ⟨f, rfl⟩ : ∃ f, fuel = f + 1 := ⟨fuel - 1, by omega⟩
     obtain ⟨hcv, hcr⟩ := hc
     rw [encodeMembers_cons]
-    simp only [encodeString, List.cons_append, List.append_assoc, List.nil_append]
     by_cases hr : r = []
     · subst hr
       simp only [if_true]
-      have hk := string_literal k (':' :: (encode v ++ '}' :: rest))
+      obtain ⟨c, rr, hT, hws, _, hk⟩ := key_roundtrip jq k (encode jq v ++ '}' :: rest)
       have hv := ih1 v (by omega) hcv f ('}' :: rest) (by omega) (numSafe_rbrace rest)
-      simp only [parseMembers, skipWS_cons '"' _ (by decide), hk, skipWS_cons ':' _ (by decide), hv,
+      rw [hT]
+      simp only [parseMembers, skipWS_cons c _ hws, hk, skipWS_cons ':' _ (by decide), hv,
         skipWS_cons '}' _ (by decide)]
       simp
     · simp only [hr, if_false]
-      have hk := string_literal k (':' :: (encode v ++ ',' :: (encodeMembers r ++ '}' :: rest)))
-      have hv := ih1 v (by omega) hcv f (',' :: (encodeMembers r ++ '}' :: rest)) (by omega) (numSafe_comma _)
+      obtain ⟨c, rr, hT, hws, _, hk⟩ := key_roundtrip jq k (encode jq v ++ ',' :: (encodeMembers jq r ++ '}' :: rest))
+      have hv := ih1 v (by omega) hcv f (',' :: (encodeMembers jq r ++ '}' :: rest)) (by omega) (numSafe_comma _)
       have hrr := ih3 r (by omega) hr hcr f rest (insertKV k v acc) (by omega)
-      simp only [parseMembers, skipWS_cons '"' _ (by decide), hk, skipWS_cons ':' _ (by decide), hv,
+      rw [hT]
+      simp only [parseMembers, skipWS_cons c _ hws, hk, skipWS_cons ':' _ (by decide), hv,
         skipWS_cons ',' _ (by decide), hrr]
       simp
 
-theorem elems_head (v : JV) (r : List JV) (tail : List Char) :
-    ∃ c tl, encodeElems (v :: r) ++ ']' :: tail = c :: tl ∧ isWS c = false ∧ (c == ']') = false := by
-  obtain ⟨c, tl, he, hws, hnb⟩ := encode_head v
+theorem elems_head (jq : Bool) (v : JV) (r : List JV) (tail : List Char) :
+    ∃ c tl, encodeElems jq (v :: r) ++ ']' :: tail = c :: tl ∧ isWS c = false ∧ (c == ']') = false := by
+  obtain ⟨c, tl, he, hws, hnb⟩ := encode_head jq v
   rw [encodeElems_cons, he]
   exact ⟨c, _, rfl, hws, hnb⟩
 
-theorem members_head (k : List Char) (v : JV) (r : List (List Char × JV)) (tail : List Char) :
-    ∃ tl, encodeMembers ((k, v) :: r) ++ '}' :: tail = '"' :: tl := by
+theorem members_head (jq : Bool) (k : List Char) (v : JV) (r : List (List Char × JV)) (tail : List Char) :
+    ∃ c tl, encodeMembers jq ((k, v) :: r) ++ '}' :: tail = c :: tl ∧ isWS c = false ∧ (c == '}') = false := by
   rw [encodeMembers_cons]
-  simp only [encodeString, List.cons_append]
-  exact ⟨_, rfl⟩
+  obtain ⟨c, rr, hT, hws, hb, _⟩ := key_roundtrip jq k
+    (encode jq v ++ (if r = [] then '}' :: tail else ',' :: (encodeMembers jq r ++ '}' :: tail)))
+  exact ⟨c, rr, hT, hws, hb⟩
 
-theorem p1_step (n : Nat) (ih2 : ∀ l, jsizeL l ≤ n → P2 l) (ih3 : ∀ kvs, jsizeM kvs ≤ n → P3 kvs)
-    (v : JV) (hv : jsize v ≤ n + 1) : P1 v := by
+theorem p1_step (jq : Bool) (n : Nat) (ih2 : ∀ l, jsizeL l ≤ n → P2 jq l) (ih3 : ∀ kvs, jsizeM kvs ≤ n → P3 jq kvs)
+    (v : JV) (hv : jsize v ≤ n + 1) : P1 jq v := by
   cases v with
-  | null => exact p1_leaf_null
-  | bool b => exact p1_leaf_bool b
-  | num i => exact p1_leaf_num i
-  | str s => exact p1_leaf_str s
+  | null => exact p1_leaf_null jq
+  | bool b => exact p1_leaf_bool jq b
+  | num i => exact p1_leaf_num jq i
+  | str s => exact p1_leaf_str jq s
   | float => intro hc; exact absurd hc (by simp [Canon])
   | arr l =>
     intro hc fuel rest hf _
@@ -456,7 +513,7 @@ theorem p1_step (n : Nat) (ih2 : ∀ l, jsizeL l ≤ n → P2 l) (ih3 : ∀ kvs,
     | nil => simp [encodeElems, skipWS_cons ']' _ (by decide)]
     | cons w r =>
       have hrr := ih2 (w :: r) (by omega) (by simp) hc f rest [] (by omega)
-      obtain ⟨c, tl, hT, hws, hnb⟩ := elems_head w r rest
+      obtain ⟨c, tl, hT, hws, hnb⟩ := elems_head jq w r rest
       rw [hT] at hrr ⊢
       simp only [skipWS_cons c _ hws, hnb, Bool.false_eq_true, if_false, hrr]
       simp
@@ -475,13 +532,13 @@ theorem p1_step (n : Nat) (ih2 : ∀ l, jsizeL l ≤ n → P2 l) (ih3 : ∀ kvs,
       obtain ⟨k, w⟩ := kv
       have hrr := ih3 ((k, w) :: r) (by omega) (by simp) hcm f rest [] (by omega)
       rw [foldl_insert_sorted _ [] (by simpa using hsorted)] at hrr
-      obtain ⟨tl, hT⟩ := members_head k w r rest
+      obtain ⟨c, tl, hT, hws, hnb⟩ := members_head jq k w r rest
       rw [hT] at hrr ⊢
-      simp only [skipWS_cons '"' _ (by decide), show ('"' == '}') = false by decide, Bool.false_eq_true, if_false, hrr]
+      simp only [skipWS_cons c _ hws, hnb, Bool.false_eq_true, if_false, hrr]
       simp
 
-theorem main_induction : ∀ n, (∀ v, jsize v ≤ n → P1 v) ∧ (∀ l, jsizeL l ≤ n → P2 l) ∧
-    (∀ kvs, jsizeM kvs ≤ n → P3 kvs) := by
+theorem main_induction (jq : Bool) : ∀ n, (∀ v, jsize v ≤ n → P1 jq v) ∧ (∀ l, jsizeL l ≤ n → P2 jq l) ∧
+    (∀ kvs, jsizeM kvs ≤ n → P3 jq kvs) := by
   intro n
   induction n with
   | zero =>
@@ -495,11 +552,21 @@ theorem main_induction : ∀ n, (∀ v, jsize v ≤ n → P1 v) ∧ (∀ l, jsiz
       | cons kv r => obtain ⟨k, v⟩ := kv; simp [jsizeM] at hl
   | succ n ih =>
     obtain ⟨ih1, ih2, ih3⟩ := ih
-    exact ⟨fun v hv => p1_step n ih2 ih3 v hv, fun l hl => p2_step n ih1 ih2 l hl,
-      fun kvs hl => p3_step n ih1 ih3 kvs hl⟩
+    exact ⟨fun v hv => p1_step jq n ih2 ih3 v hv, fun l hl => p2_step jq n ih1 ih2 l hl,
+      fun kvs hl => p3_step jq n ih1 ih3 kvs hl⟩
+
+theorem keyText_length (jq : Bool) (k : List Char) : 1 ≤ (keyText jq k).length := by
+  unfold keyText
+  split
+  · rename_i h
+    simp only [Bool.and_eq_true] at h
+    cases k with
+    | nil => simp [isIdent] at h
+    | cons c cs => simp
+  · simp [encodeString]
 
 mutual
-  theorem jsize_le_length : ∀ v : JV, jsize v ≤ (encode v).length
+  theorem jsize_le_length (jq : Bool) : ∀ v : JV, jsize v ≤ (encode jq v).length
     | .null => by simp [jsize, encode]
     | .bool true => by simp [jsize, encode]
     | .bool false => by simp [jsize, encode]
@@ -509,34 +576,40 @@ mutual
     | .float => by simp [jsize, encode]
     | .str s => by simp [jsize, encode, encodeString]
     | .arr l => by
-      have := jsizeL_le_length l
+      have := jsizeL_le_length jq l
       simp only [jsize, encode, List.length_cons, List.length_append, List.length_nil]; omega
     | .obj kvs => by
-      have := jsizeM_le_length kvs
+      have := jsizeM_le_length jq kvs
       simp only [jsize, encode, List.length_cons, List.length_append, List.length_nil]; omega
-  theorem jsizeL_le_length : ∀ l : List JV, jsizeL l ≤ (encodeElems l).length + 1
+  theorem jsizeL_le_length (jq : Bool) : ∀ l : List JV, jsizeL l ≤ (encodeElems jq l).length + 1
     | [] => by simp [jsizeL]
     | [v] => by
-      have := jsize_le_length v
+      have := jsize_le_length jq v
       simp only [jsizeL, encodeElems]; omega
     | v :: w :: r => by
-      have h1 := jsize_le_length v
-      have h2 := jsizeL_le_length (w :: r)
+      have h1 := jsize_le_length jq v
+      have h2 := jsizeL_le_length jq (w :: r)
       simp only [jsizeL, encodeElems, List.length_append, List.length_cons] at h2 ⊢; omega
-  theorem jsizeM_le_length : ∀ kvs : List (List Char × JV), jsizeM kvs ≤ (encodeMembers kvs).length + 1
+  theorem jsizeM_le_length (jq : Bool) : ∀ kvs : List (List Char × JV), jsizeM kvs ≤ (encodeMembers jq kvs).length + 1
     | [] => by simp [jsizeM]
     | [(k, v)] => by
-      have := jsize_le_length v
+      have := jsize_le_length jq v
+      have := keyText_length jq k
       simp only [jsizeM, encodeMembers, List.length_append, List.length_cons]; omega
     | (k, v) :: w :: r => by
-      have h1 := jsize_le_length v
-      have h2 := jsizeM_le_length (w :: r)
+      have h1 := jsize_le_length jq v
+      have h2 := jsizeM_le_length jq (w :: r)
+      have := keyText_length jq k
       simp only [jsizeM, encodeMembers, List.length_append, List.length_cons] at h2 ⊢; omega
 end
 
-theorem parse_encode (v : JV) (hc : Canon v) : parse (encode v) = .ok v [] := by
-  have h := (main_induction (jsize v)).1 v (Nat.le_refl _) hc ((encode v).length + 1) []
-    (by have := jsize_le_length v; omega) numSafe_nil
+theorem parseWith_encode (jq : Bool) (v : JV) (hc : Canon v) : parseWith jq (encode jq v) = .ok v [] := by
+  have h := (main_induction jq (jsize v)).1 v (Nat.le_refl _) hc ((encode jq v).length + 1) []
+    (by have := jsize_le_length jq v; omega) numSafe_nil
   simp only [List.append_nil] at h
-  simp [parse, h, skipWS]
+  simp [parseWith, h, skipWS]
+
+theorem parse_encode (v : JV) (hc : Canon v) : parse (encode false v) = .ok v [] := parseWith_encode false v hc
+
+theorem parseJq_encode (v : JV) (hc : Canon v) : parseJq (encode true v) = .ok v [] := parseWith_encode true v hc
 end Proofs.C14J
